@@ -196,7 +196,8 @@ func checkC17(c *Ctx) {
 		}
 	}
 	c.Set("ranges_expanded", len(ranges))
-	c17ThroughTheAPI(c, len(lines))
+	// (6) in a child process: an out-of-list window may make the code under test allocate without bound
+	c.RunPartInChild("c17api", "C17/out-of-range-position-crashes-the-process")
 	c.Exhaustive = true
 	c.Set("random_indices", nrand)
 }
@@ -205,7 +206,11 @@ func checkC17(c *Ctx) {
 // dc4bc_cli sign_baked command when the binary is available): a window reaching outside the list, by any
 // amount incl. multiples of 2^32 and negative bounds, must be refused; if a request is accepted, the
 // proposal the node posts must name exactly the requested window.
-func c17ThroughTheAPI(c *Ctx, listLen int) {
+func init() {
+	ChildParts["c17api"] = func(c *Ctx, progress func(string)) { c17ThroughTheAPI(c, len(oracle.RefLines()), progress) }
+}
+
+func c17ThroughTheAPI(c *Ctx, listLen int, progress func(string)) {
 	ce, err := NewCeremonyWith(world.Options{N: 2, T: 2, Seed: c.Seed*163 + 5, ViaHTTP: true, ViaCLI: true}, world.EagerPolicy)
 	if err != nil || !ce.AllIn(StIdle) {
 		c.Inconclusive("world for the API part: %v", err)
@@ -230,6 +235,7 @@ func c17ThroughTheAPI(c *Ctx, listLen int) {
 			}
 			nd.Mem.Restore(snap)
 			w.Board.Truncate(blen)
+			progress(fmt.Sprintf("window [%d,%d) offered through %s", wd[0], wd[1], channel))
 			var err error
 			if channel == "rest" {
 				_, err = nd.API.Raw("POST", "/proposeSignBakedMessages", nil, []byte(fmt.Sprintf(`{"dkgID":%q,"range_start":%d,"range_end":%d}`, base64.StdEncoding.EncodeToString(id), wd[0], wd[1])))
@@ -241,6 +247,10 @@ func c17ThroughTheAPI(c *Ctx, listLen int) {
 			c.Add("windows_offered_through_"+channel, 1)
 			wit := map[string]interface{}{"channel": channel, "range_start": wd[0], "range_end": wd[1], "list_length": listLen}
 			posted := w.Board.All()[blen:]
+			if ae, ok := err.(*world.APIError); ok && ae.Panicked {
+				c.Violate("C17/out-of-range-position-panics", fmt.Sprintf("window [%d,%d) offered through %s: %s", wd[0], wd[1], channel, ae.Msg), wit)
+				continue
+			}
 			if err != nil {
 				if inside && wd[0] < wd[1] {
 					c.Violate("C17/valid-range-refused", fmt.Sprintf("window [%d,%d) inside the list refused through %s: %v", wd[0], wd[1], channel, err), wit)
